@@ -809,9 +809,11 @@ class SequencePlugin(Plugin):
                     # Start a new sequence
                     seq = []
                 else:
-                    # End the current sequence
-                    sn = self.SequenceNode(seq, slop=node.slop)
-                    newgroup.append(sn)
+                    # End the current sequence (an empty pair of quotes
+                    # contributes nothing)
+                    if seq:
+                        sn = self.SequenceNode(seq, slop=node.slop)
+                        newgroup.append(sn)
                     seq = None
             elif seq is None:
                 # Not in a sequence, add directly
